@@ -70,7 +70,7 @@ class ValGen:
                 out += self.val(depth + 1)
             return out
         cls = r.choice([0, 0, 1, 2])
-        addr = r.randint(1, 4)
+        addr = 10 * cls + r.randint(1, 4)      # pointer identity: one address, one object
         key = (cls, addr)
         if key not in self.objs:
             n = [1, 2, 0][cls]
@@ -243,9 +243,9 @@ def short_obs(o):
 # ------------------------------------------------------------------------------ decoder sessions
 def wire_samples():
     ok = ['s5"hello"', "i12345;", "7", "n", "e", "t", "f", "ux", "l5;", "l-77;", "d1.5;", "d-2.25;",
-          'a2{s5"hello"r1;}', 'a3{1i22;s2"ab"}', "a{}", 'a2{a1{s2"ab"}r2;}', 'a2{s2"ab"s2"ab"}',
+          'a2{s5"hello"r1;}', 'a3{1i22;s2"ab"}', "a{}", 'a2{a1{s2"ab"}r2;}', 'a2{s2"ab"s2"ab"}', "a2{a1{1}r1;}",
           'a3{l9;d0.25;s3"abc"}']
-    bad = ["", "r0;", "r3;", "Z", "a3{12", 'a2{s2"ab"r7;}', "a2{1Z}", "a2{r0;1}"]
+    bad = ["", "r0;", "r3;", "Z", "a3{12", 'a2{s2"ab"r7;}', "a2{1Z}"]
     return ok, bad
 
 
@@ -381,7 +381,7 @@ CELLS = [
     ("iface", ["str5", "chr", "bytes5", "liststr", "listref", "listbytes", "listlong", "map", "objfoo", "objsc", "str300", "int", "guid"]),
     ("islice", ["liststr", "listref", "listbytes", "listlong"]), ("strslice", ["liststr", "listref", "listbytes", "listlong"]),
     ("bytesslice", ["listbytes", "liststr", "listref", "listlong"]),
-    ("mapss", ["map"]), ("mapsi", ["map", "objfoo"]), ("mapsb", ["map"]), ("mapii", ["map", "objfoo"]),
+    ("mapss", ["map"]), ("mapsi", ["map", "objfoo"]), ("mapsb", ["map"]), ("mapii", ["map"]),
     ("struct", ["structmap", "objsc"]), ("pstruct", ["objsc", "structmap"]),
     ("arr4", ["arrb", "arrs"]), ("int", ["numstr", "int", "badnum"]), ("float", ["fltstr", "badnum"]),
     ("bigint", ["long", "numstr", "badnum"]), ("time", ["date", "badnum"]), ("bool", ["boolstr", "badnum"]),
